@@ -1,6 +1,6 @@
-(* Property theorems for C19 / C20 over the facts regenerated from the Go source (Facts.v) and the process structure. *)
+(* Property theorems for C20 over the facts regenerated from the Go source (Facts.v). *)
 From Coq Require Import List String Bool NArith.
-From Cqos Require Import Conf Facts C19 Base Divider Join Limit Prio2 Prio2P.
+From Cqos Require Import Conf Facts.
 Import ListNotations.
 Open Scope string_scope.
 
@@ -26,32 +26,3 @@ Theorem C20_checker_sound : forall t, confined t = true ->
     r1 = r2 /\ r_multi r1 = false.
 Proof. exact confined_sound. Qed.
 Print Assumptions C20_checker_sound.
-
-(* C19: the goroutines the disciplines start are exactly the ones of the models: one main goroutine per discipline, the handler
-   goroutines of the simplified disciplines (started in a loop), and the helper of v1 Simple that awaits the inner graceful stop *)
-Theorem C19_goroutines :
-  all_go_statements facts =
-  [("priority", [("New", "Discipline.main", false); ("NewSimple", "Simple.main", false);
-                 ("Simple.gracefulStop", "Simple.gracefulStop.func", false); ("Simple.main", "Simple.handler", true)]);
-   ("v2/priority", [("New", "Discipline.main", false)]);
-   ("v2/priority/simple", [("Discipline.main", "Discipline.handler", true)]);
-   ("join", [("New", "Discipline.main", false)]);
-   ("v2/join", [("New", "Discipline.main", false)]);
-   ("v2/join/unite", [("New", "Discipline.main", false)]);
-   ("v2/limit", [("New", "Discipline.main", false)])].
-Proof. vm_compute. reflexivity. Qed.
-Print Assumptions C19_goroutines.
-Theorem C19_join_closed_final : forall c s e, Join.pc s = Closed -> jstep c s e = None \/ exists t, e = StopCall t.
-Proof. exact join_closed_final. Qed.
-Print Assumptions C19_join_closed_final.
-Theorem C19_limit_closed_final : forall c e, lstep c LClosed e = None.
-Proof. exact limit_closed_final'. Qed.
-Print Assumptions C19_limit_closed_final.
-Theorem C19_prio2_done_final : forall dv s e, Prio2.pcs s = Prio2.Done e -> Prio2.sched_step dv s = None.
-Proof. exact prio2_done_final. Qed.
-Print Assumptions C19_prio2_done_final.
-Theorem C19_simple2_handlers_exit : forall dv,
-  (forall k ps n d, NoDup (keys d) -> NoDup (keys (dv k ps n d))) -> forall s0 s e,
-  Init s0 -> Prio2.reachable dv s0 s -> Prio2.pcs s = Prio2.Done e -> Prio2.held s = [] /\ Prio2.outq s = [].
-Proof. exact simple2_handlers_exit. Qed.
-Print Assumptions C19_simple2_handlers_exit.
